@@ -10,5 +10,5 @@ if a not in s: print("MUTATION PATTERN NOT FOUND"); sys.exit(3)
 open(p,'w').write(s.replace(a,b,1))
 PY
 [ $? -eq 3 ] && exit 3
-cd /verif && ./check "$@" 2>&1 | grep -E "^(C[0-9]+ tier|HARNESS|INCONC|VIOL|KNOWN|  refuted)" | cut -c1-300 | head -8
+cd /verif && VERIF_EVIDENCE_DIR=/tmp/verif-mutant-evidence ./check "$@" 2>&1 | grep -E "^(C[0-9]+ tier|HARNESS|INCONC|VIOL|KNOWN|  refuted)" | cut -c1-300 | head -8
 git -C /repo checkout -- .
